@@ -790,13 +790,14 @@ class ExcelCompiler:
                 # loaded with a stored result has no unevaluated precedent
                 self.range_todos.append(str(address))
 
-            if excel_data.address.is_range:
+            if str(excel_data.address) in self.cell_map:
+                # the used part of an unbounded range is already a node
+                new_nodes = ref_nodes
+            elif excel_data.address.is_range:
                 self.range_todos.append(str(excel_data.address))
                 new_nodes = build_range(excel_data) + ref_nodes
-            elif str(excel_data.address) in self.cell_map:
-                # the used part of an unbounded range can be a single cell
-                new_nodes = ref_nodes
             else:
+                # the used part of an unbounded range can be a single cell
                 new_nodes = build_cell(excel_data) + ref_nodes
         else:
             new_nodes = build_cell(excel_data)
